@@ -215,13 +215,19 @@ Theorem c07_receive_max_renegotiated_v5 : forall l sp rm tam, Client.Loop5.conne
     s5_max (Client.Loop5.st5 l') = match rm with Some m => N.min m (s5_max_limit (Client.Loop5.st5 l)) | None => s5_max (Client.Loop5.st5 l) end.
 Proof. exact Client.Loop5Proofs.reconnect5_spec. Qed.
 
-Theorem c07_connack_refused_keeps_connection_v5 : forall l sp tam, Client.Loop5.connected5 l = false ->
+Theorem c07_connack_refused_closes_connection_v5 : forall l sp tam, Client.Loop5.connected5 l = false ->
   exists l', Client.Loop5.lstep5 l (Client.Loop5.Reconnect5 sp (Some 0) tam) = Client.Loop5.Failed5 l' (Client.Loop5.LE5State (E5ConnFail 130)) /\
+    Client.Loop5.connected5 l' = false /\ Client.Loop5.chan5 l' = [] /\ held5 (Client.Loop5.st5 l') = [] /\
+    Client.Loop5.pending5 l' = held5 (Client.Loop5.st5 l) ++ (if sp then Client.Loop5.pending5 l else []) ++ filter Client.Loop5.not_puback5 (Client.Loop5.chan5 l).
+Proof. exact Client.Loop5Proofs.reconnect5_refused_closes. Qed.
+
+Theorem c07_connack_refused_keeps_connection_refuted_before_fix_v5 : forall l sp tam, Client.Loop5.connected5 l = false ->
+  exists l', Client.Loop5.lstep5_keep l (Client.Loop5.Reconnect5 sp (Some 0) tam) = Client.Loop5.Failed5 l' (Client.Loop5.LE5State (E5ConnFail 130)) /\
     Client.Loop5.connected5 l' = true /\ Client.Loop5.pending5 l' = (if sp then Client.Loop5.pending5 l else []) /\
     s5_max (Client.Loop5.st5 l') = s5_max (Client.Loop5.st5 l) /\
     s5_pub (Client.Loop5.st5 l') = s5_pub (Client.Loop5.st5 l) /\ s5_rel (Client.Loop5.st5 l') = s5_rel (Client.Loop5.st5 l) /\
     s5_collision (Client.Loop5.st5 l') = s5_collision (Client.Loop5.st5 l).
-Proof. exact Client.Loop5Proofs.reconnect5_refused. Qed.
+Proof. exact Client.Loop5Proofs.reconnect5_refused_kept_before_fix. Qed.
 
 Theorem c07_f7_loop_refuted_before_fix_v5 :
   Client.Loop5Proofs.k7_5_orig (Client.Loop5.linit5 1 false) Client.Loop5Proofs.f7_loop5_history = true /\
